@@ -477,7 +477,8 @@ impl Runner {
     }
     /// Budget selector.
     pub fn n(&self, quick: u64, thorough: u64) -> u64 {
-        let base = if self.quick() { quick } else { thorough };
+        // the quick tier is fixed work too: four times the per-stage base figure
+        let base = if self.quick() { quick * 4 } else { thorough };
         match std::env::var("VERIF_SCALE").ok().and_then(|s| s.parse::<f64>().ok()) {
             Some(f) if f > 0.0 => ((base as f64 * f) as u64).max(1),
             _ => base,
